@@ -294,6 +294,13 @@ def run(chk, replay=None):
             ext = []
             declared = {q.idx: set() for q in qs}
             for q in marked:
+                others = [c for c in q.members if c != q.home]
+                if others and rng.random() < 0.5:
+                    # another member of the class is marked as well, first and without dependencies: the dependencies declared on
+                    # the second external variable of the class still count (fix 20aee58)
+                    c2 = rng.choice(others)
+                    ext += ['c%d' % c2, q.members[c2][0]]
+                    stats['class_marked_twice'] = stats.get('class_marked_twice', 0) + 1
                 ext += ['c%d' % q.home, q.members[q.home][0]]
                 ok_deps = [p for p in qs if p.kind != 'voi' and p.idx != q.idx and q.idx not in closure(p.idx) and (p not in marked or rng.random() < 0.7)]
                 for p in rng.sample(ok_deps, min(len(ok_deps), rng.randint(0, 2))):
